@@ -890,7 +890,21 @@ def c17():
                 tag="mcbitpackneg", expect_violation="UnpackPack")
     ck.cov["negative_controls"] = ["MC_Bitpack with a broken Unpack: UnpackPack violated as required"]
     vectors = export_bits("vectors")
-    mirror = run_tool("coldrv", {"ops": [{"op": "mirror", "vectors": vectors}]}, "c17m")
+    # through the public column API: bit-packed runs holding exactly the exported groups are fed to the decoder (any group) and,
+    # where the encoder bit-packs them (groups without 8 equal values), produced by the encoder
+    ops = [{"op": "mirror", "vectors": vectors}]
+    sel = vectors if not q else vectors[:: max(1, len(vectors) // 1500)]
+    for i, v in enumerate(sel):
+        ops.append({"op": "dec", "w": v["w"], "kind": "def" if i % 3 else "rep", "levels": v["vals"], "segs": [{"rle": False, "n": 8}], "pad": 0})
+        if len(set(v["vals"])) > 1:
+            ops.append({"op": "enc", "w": v["w"], "kind": "def", "levels": v["vals"]})
+    for i in range(300 if q else 3000):
+        w = 1 + i % 4
+        vals = [ck.rng.randrange(1 << w) for _ in range(8 * (1 + i % 3))]
+        ops.append({"op": "dec", "w": w, "kind": "def", "levels": vals, "segs": [{"rle": False, "n": len(vals)}], "pad": 0})
+        ops.append({"op": "enc", "w": w, "kind": "def", "levels": vals})
+    mirror = run_tool("coldrv", {"ops": ops}, "c17m")
+    ck.cov["public_api_groups"] = sum(1 for e in mirror if e["ev"] in ("Enc", "Dec"))
     # in-package sweep through an overlay file (nothing is written into /repo)
     d = os.path.join(WORK, "overlay_c17")
     os.makedirs(d, exist_ok=True)
@@ -932,7 +946,8 @@ def c17():
             ck.report("w=%d %s" % (e["w"], e["dir"]), "SweepClean", {"first": e["first"], "sweep": e})
     conjs = sorted({v["conjunct"] for v in verdicts if v["prop"] == "C17"} - {"SweepClean"})
     if conjs:
-        ck.report("sampled group", "+".join(conjs), {"verdicts": verdicts[:10]})
+        badev = [e for e in events if (e["ev"] == "Dec" and (e["problem"] or e["out"] != e["levels"])) or (e["ev"] == "Enc" and e["problem"])]
+        ck.report("group " + json.dumps((badev[0].get("levels") if badev else "see sweeps"))[:120], "+".join(conjs), {"verdicts": verdicts[:10], "events": badev[:5]})
     ck.assumptions += ["the w = 4 space (2^32 groups per direction) is swept exhaustively only in the thorough tier; quick samples 2*10^7 groups per direction",
                        "the mirror (harness/pq SpecPack/SpecUnpack) is a transliteration of Bitpack.tla and is checked against TLC-evaluated vectors in this run"]
     ck.finish()
@@ -1038,7 +1053,9 @@ def features_for(col):
     if col["gotype"] == "string":
         fs.append("enc-delta-length")
     if col["maxdef"] > 0:
-        fs.append("levels-bitpacked")
+        fs.append("def-bitpacked")
+    if col["maxrep"] > 0:
+        fs += ["rep-bitpacked", "levels-bitpacked"]
     return fs
 
 
@@ -1568,7 +1585,7 @@ def c14():
             # the decoration applied at a site is a fixed function of (base, site): keys are stable across tiers and seeds
             h = zlib.crc32(("%s|%s|%d" % (p.key, path, pos)).encode())
             t = EXCL_TYPES[h % len(EXCL_TYPES)]
-            style = (h // 16) % 4
+            style = (h // 16) % 6
             n = h % 1000
             if style == 0:
                 gf = "hidden%d %s" % (n, t)
@@ -1576,8 +1593,12 @@ def c14():
                 gf = "Skip%d %s `parquet:\"-\"`" % (n, t)
             elif style == 2:
                 gf = "_pad%d %s" % (n, t)
-            else:
+            elif style == 3:
                 gf = "ähm%d %s `json:\"x\"`" % (n, t)
+            elif style == 4:
+                gf = "Omit%d %s `json:\"x,omitempty\" parquet:\"-\"`" % (n, t)
+            else:
+                gf = "Omit%d %s `parquet:\"-\" yaml:\"n\"`" % (n, t)
             kids.insert(pos, {"excl": True, "gofield": gf})
             decos.append((p, f, "excl %s at %s/%d" % (gf, path, pos)))
         for (path, start, ln) in emb:
